@@ -140,23 +140,24 @@ theorem C02_exact (lower : Bytes → Bytes) (schema : List (List String × Kind)
 with this uuid. -/
 theorem C02_id_lookup (lower : Bytes → Bytes) {st : St} (inv : Inv lower st) (u : String) (i : Id) :
     i ∈ eval lower st (.leaf (.idEq u)) ↔ ∃ p ∈ st.pts, p.uuid = u ∧ p.id = i := by
-  rw [C02_tree lower inv _ (by simp [Query.wf, Leaf.wf]) (by simp [Query.Valid, Leaf.Valid])]
+  rw [C02_tree lower inv _ (by rw [Query.wf_leaf, Leaf.wf_idEq]) ((Query.valid_leaf _).2 (Leaf.valid_idEq u))]
   exact idOf_eq_some_iff inv.uuids u i
 
 /-- **C02_lacking_field.** A point that lacks the property (or is not live) never matches a leaf on it. -/
 theorem C02_lacking_field (lower : Bytes → Bytes) {st : St} (inv : Inv lower st) (path : List String) (op : Op)
     (v e : BitVec 64) (hwf : (Leaf.int path op v e).wf st = true) (i : Id)
     (hlack : getProp (docOf st.pts i) path = none) : i ∉ eval lower st (.leaf (.int path op v e)) := by
-  rw [C02_tree lower inv _ (by simpa [Query.wf] using hwf) (by simp [Query.Valid, Leaf.Valid])]
+  rw [C02_tree lower inv _ (by rw [Query.wf_leaf]; exact hwf) ((Query.valid_leaf _).2 (Leaf.valid_int ..))]
   rintro ⟨kv, _, a, ha, _⟩
-  simp [intVals, hlack] at ha
+  rw [int_lacking path i hlack] at ha
+  exact absurd ha (by simp)
 
 /-- **C02_rejected_unchanged.** A batch the shard does not accept (existing / repeated uuid, a property of the
 wrong type, or — on the file backend — a posting under the empty key, which bbolt refuses with "key
 required") leaves the state, hence the invariant, unchanged. -/
 theorem C02_rejected_unchanged (lower : Bytes → Bytes) (st : St) (op : WOp) (h : st.accepts lower op = false) :
-    st.write lower op = st := by
-  simp [St.write, h]
+    st.write lower op = st :=
+  write_rejected lower st op h
 
 /-! ### non-vacuity: concrete states and queries satisfying the hypotheses -/
 
@@ -173,7 +174,8 @@ private theorem exNoFlt (k : Nat) : ∀ ix ∈ (run exLower (St.init exSchema fa
   intro ix hix
   obtain ⟨ix0, h0, hk, _⟩ := run_kind_mem exLower _ hix
   rw [hk]
-  simp only [St.init, exSchema, List.map_cons, List.map_nil, List.mem_cons, List.not_mem_nil, or_false] at h0
+  change ix0 ∈ [(⟨["n"], .int, KV.empty⟩ : Index), ⟨["nest", "s"], .str false, KV.empty⟩] at h0
+  simp only [List.mem_cons, List.not_mem_nil, or_false] at h0
   rcases h0 with rfl | rfl <;> simp
 
 /-- the hypotheses of `C02_exact` hold for this history (insert, update, delete) and query … -/
@@ -185,7 +187,9 @@ example : HistOK exLower (St.init exSchema false) exOps ∧
   · intro pc _ ix hix hk; exact absurd hk (exNoFlt 0 ix hix)
   · intro pc _ ix hix hk; exact absurd hk (exNoFlt 1 ix hix)
   · intro pc _ ix hix hk; exact absurd hk (exNoFlt 2 ix hix)
-  · simp [exQuery, Query.Valid, QList.Valid, Leaf.Valid]
+  · exact (Query.valid_and _).2 ((QList.valid_cons _ _).2 ⟨(Query.valid_leaf _).2 (Leaf.valid_int ..),
+      (QList.valid_cons _ _).2 ⟨(Query.valid_or _).2 ((QList.valid_cons _ _).2
+        ⟨(Query.valid_leaf _).2 (Leaf.valid_idEq _), QList.valid_nil⟩), QList.valid_nil⟩⟩)
 /-- … and the answer is the expected one (computed by the model) -/
 example : eval exLower (run exLower (St.init exSchema false) exOps) exQuery = [2#64] := by decide
 /-- a non-trivial index state satisfying `IdxInv` (by `C02_history`): the buckets hold two and one postings -/
@@ -204,12 +208,17 @@ example : OpOK (St.init fxSchema true) fxOp := by
   refine ⟨⟨?_, fun p _ => rfl⟩, ?_⟩
   · exact List.pairwise_cons.2 ⟨by intro b hb; simp at hb; subst hb; decide, List.pairwise_singleton _ _⟩
   · intro pc hpc ix hix hk x hx
-    simp only [St.init, fxSchema, List.map_cons, List.map_nil, List.mem_singleton] at hix
+    change ix ∈ [(⟨["x"], .flt, KV.empty⟩ : Index)] at hix
+    simp only [List.mem_singleton] at hix
     subst hix
-    simp only [pointChanges, fxOp, List.map_cons, List.map_nil, List.mem_cons, List.not_mem_nil, or_false] at hpc
-    rcases hpc with rfl | rfl <;>
-      · simp [fltVals, getProp, Val.query, castFlt] at hx
-        subst hx; decide
+    change pc ∈ [(⟨1#64, none, some (.map [("x", .flt 0x8000000000000000#64)])⟩ : PChange),
+      ⟨2#64, none, some (.map [("x", .flt 0x3ff0000000000000#64)])⟩] at hpc
+    simp only [List.mem_cons, List.not_mem_nil, or_false] at hpc
+    rcases hpc with rfl | rfl
+    · change x ∈ [0x8000000000000000#64] at hx
+      simp only [List.mem_singleton] at hx; subst hx; decide
+    · change x ∈ [0x3ff0000000000000#64] at hx
+      simp only [List.mem_singleton] at hx; subst hx; decide
 /-- … `equals +0.0` finds the point holding −0.0, and `greaterThan −Inf` finds both -/
 example : eval exLower ((St.init fxSchema true).write exLower fxOp) (.leaf (.flt ["x"] .equals 0#64 0#64)) = [1#64] := by
   decide
